@@ -44,10 +44,12 @@ type num struct{ k int }
 func (n num) Get(x int) int { return n.k + x }
 func mk() num                { return num{1} }
 func id[T any](x T) T        { return x }
+func conv[A, B any](b B) A   { var a A; _ = b; return a }
 func dbl(x int) int          { return 2 * x }
 func sub(a, b int) int       { return a - b }
 func neg(a int) int          { return -a }
 func zero() int              { return 0 }
+func cnt(xs ...any) int      { return len(xs) }
 func sum(xs ...int) int      { return len(xs) }
 func pick() func(int) int    { return dbl }
 func open() co.Iter[int]     { return Gen([]int{1}) }
@@ -176,7 +178,10 @@ func k11(args []string) {
 		{Req: "(k11 declared-generic-inst same sametype)", Code: "func(x int) int { return id[int](x) }"},
 		{Req: "(k11 pkgfunc same sametype)", Code: "func(s string) string { return strings.ToUpper(s) }"},
 		{Req: "(k11 pkgfunc-generic same sametype)", Code: "func(ys []int) int { return slices.Max(ys) }"},
-		{Req: "(k11 pkgfunc-generic-inst same sametype)", Code: "func(ys []int) int { return slices.Max[[]int](ys) }"},
+		{Req: "(k11 pkgfunc-generic-partial same sametype)", Code: "func(ys []int) int { return slices.Max[[]int](ys) }"},
+		{Req: "(k11 pkgfunc-generic-inst same sametype)", Code: "func(ys []int) int { return slices.Max[[]int, int](ys) }"},
+		{Req: "(k11 declared-generic-partial same sametype)", Code: "func(x int) string { return conv[string](x) }"},
+		{Req: "(k11 declared-generic-inst same sametype)", Code: "func(x int) string { return conv[string, int](x) }"},
 		{Req: "(k11 localvar same sametype)", Code: "func(x int) int { return g(x) }"},
 		{Req: "(k11 field same sametype)", Code: "func(x int) int { return fs.f(x) }"},
 		{Req: "(k11 method-uservar same sametype)", Code: "func(x int) int { return u.Get(x) }"},
@@ -195,6 +200,9 @@ func k11(args []string) {
 		{Req: "(k11 declared same othertype)", Code: "func() any { return zero() }"},
 		{Req: "(k11 declared same othertype)", Code: "func() int { return sum() }"},
 		{Req: "(k11 declared same sametype)", Code: "func() int { return zero() }"},
+		// a variadic closure: spread call or the slice as one argument (the types agree in both)
+		{Req: "(k11 declared same sametype)", Code: "func(xs ...any) int { return cnt(xs...) }"},
+		{Req: "(k11 declared nonident sametype)", Code: "func(xs ...any) int { return cnt(xs) }"},
 		// receivers of the iterator type that are not generated variables
 		{Req: "(k11 method-expr same sametype)", Code: "func() bool { return open().MoveNext() }"},
 		{Req: "(k11 method-uservar same sametype)", Code: "func() bool { return it.MoveNext() }"},
